@@ -63,6 +63,16 @@ def crashx(qb=120, tb=1200):
     }
 
 
+def worldx(prop, qb, tb):
+    return {
+        "name": "worldx", "dir": "worldx", "variant": "verif",
+        "cmd": ["/usr/bin/python3", "{root}/harness/worldx/worldx.py", "--prop", prop, "--tier", "{tier}", "--shard", "{shard}",
+                "--nshards", "{nshards}", "--out", "{out}", "--seed", "{seed}", "--budget", "{budget}"],
+        "shards": {"quick": 16, "thorough": 16},
+        "budget": {"quick": qb, "thorough": tb},
+    }
+
+
 A_SCHED = [
     "sequential consistency; atomics are not scheduling points (every conflicting pair of atomic accesses in these bodies is separated by a mutex operation)",
     "data races as such are invisible to a serialising scheduler",
@@ -85,7 +95,11 @@ CHECKS = {
     "C05": {"level": "model_checking", "parts": [enginex("C05"), schedx("C05")], "assumptions": A_ENGINE + A_SCHED},
     "C06": {"level": "model_checking", "parts": [enginex("C06"), schedx("C06")], "assumptions": A_ENGINE + A_SCHED},
     "C07": {"level": "model_checking", "parts": [enginex("C07")], "assumptions": A_ENGINE},
+    "C08": {"level": "exploration", "parts": [worldx("C08", 200, 1500)], "assumptions": []},
+    "C09": {"level": "exploration", "parts": [worldx("C09", 200, 1500)], "assumptions": []},
+    "C10": {"level": "exploration", "parts": [worldx("C10", 150, 600)], "assumptions": []},
     "C11": {"level": "exploration", "parts": [parsex("C11")], "assumptions": []},
+    "C20": {"level": "model_checking", "parts": [enginex("C20")], "assumptions": A_ENGINE},
     "C13": {"level": "exploration", "parts": [enumx("C13")], "assumptions": []},
     "C14": {"level": "exploration", "parts": [enumx("C14")], "assumptions": []},
     "C15": {"level": "exploration", "parts": [enumx("C15")], "assumptions": []},
